@@ -556,6 +556,7 @@ package serf
 
 // one filter accepts this node: node filter lists our name / tag filter's pattern matches our tag value
 //@ pure func filterAccepts(s *Serf, f []byte) bool {
+//@   if len(f) == 0 { return false }
 //@   if filterType(f[0]) == filterNodeType {
 //@     return decodeOK[filterNode](f[1:]) && slices.Contains(decoded[filterNode](f[1:]), s.config.NodeName)
 //@   }
@@ -569,7 +570,6 @@ package serf
 
 //@ func (s *Serf) shouldProcessQuery(filters [][]byte) (ok bool)
 //@   requires wf: s != nil && s.config != nil
-//@   requires nonempty_filters: forall(func(i int) bool { return 0 <= i && i < len(filters) ==> len(filters[i]) > 0 })
 //@   ensures exactly_when_all_filters_accept [C08]: ok == forall(func(i int) bool { return 0 <= i && i < len(filters) ==> filterAccepts(s, filters[i]) })
 //@   loop 1 vars rangeindex int
 //@   loop 1 invariant accepted_so_far [C08]: -1 <= rangeindex && rangeindex < len(filters) &&
@@ -598,7 +598,6 @@ package serf
 //@ func (s *Serf) handleQuery(query *messageQuery) (rebroadcast bool)
 //@   logcalls
 //@   requires wf: wfQueries(s) && query != nil && wfMembers(s) && hasMember(s, s.config.NodeName)
-//@   requires nonempty_filters: forall(func(i int) bool { return 0 <= i && i < len(query.Filters) ==> len(query.Filters[i]) > 0 })
 //@   case wrap_at_max: uint64(query.LTime) == maxU64()
 //@   oldlet seen0 := qslotHas(s, query.LTime, query.ID)
 //@   oldlet c0 := s.queryClock.Time()
